@@ -224,8 +224,14 @@ class FakeWandb:
         self._seed = run_id_seed
         self.finished = 0
 
+    login_fault = False
+
     def login(self, key=None, **kw):
         self.login_keys.append(key)  # real wandb writes ~/.netrc, i.e. outside the output dirs
+        if self.login_fault:
+            # the external service is a fault source too: network / authentication failure at login
+            self.login_fault_fired = True
+            raise ConnectionError("injected: wandb login failed (network unreachable)")
         return True
 
     def finish(self, *a, **k):
@@ -501,7 +507,8 @@ def run_trainer_child(plan, root, key):
     tempfile.tempdir = tmpdir
     os.makedirs(os.path.join(root, "cwd"), exist_ok=True)
     os.chdir(os.path.join(root, "cwd"))
-    needles = needles_for(key)
+    prev_key = "P" + key[1:][::-1]  # the key of the earlier run when an output folder is reused
+    needles = needles_for(key) + (needles_for(prev_key) if plan.get("rerun") else [])
     from simcore import shims
 
     slp = os.path.join(shims.REPO, "tests/assets/minimal_instance.pkg.slp")
@@ -514,6 +521,7 @@ def run_trainer_child(plan, root, key):
     cfg = build_config(plan, out_dir, chunks_dir, slp, key)
     supplied = flatten(OmegaConf.to_container(cfg, resolve=True))
     fake = FakeWandb(plan["seed"])
+    fake.login_fault = bool(plan.get("login_fault"))
     mon = FSMonitor.get()
     res = {
         "events": [], "hits": [], "error": None, "phase": "start", "fault_fired": None,
@@ -574,6 +582,17 @@ def run_trainer_child(plan, root, key):
     mon.start(roots, on_event=on_event)
     try:
         with contextlib.redirect_stdout(sink), contextlib.redirect_stderr(sink):
+            if plan.get("rerun"):
+                # history: an EARLIER run with another configuration (and another key) already used this output folder
+                p0 = dict(plan, epochs=3 - plan.get("epochs", 1), save_last=not bool(plan["save_last"]), aug=True, early=True)
+                cfg0 = build_config(p0, out_dir, chunks_dir, slp, prev_key)
+                OmegaConf.update(cfg0, "trainer_config.optimizer.lr", 0.003, force_add=True)
+                OmegaConf.update(cfg0, "trainer_config.seed", 7, force_add=True)
+                res["phase"] = "earlier_run"
+                t0 = mt.ModelTrainer(cfg0)
+                t0.train()
+                res["events_before_rerun"] = len(res["events"])
+                fake.finished = 0
             res["phase"] = "init"
             trainer = mt.ModelTrainer(cfg)
             res["phase"] = "init_done"
@@ -631,6 +650,8 @@ def run_trainer_child(plan, root, key):
     base = chunks_dir or out_dir
     art["npz_left"] = [f for f in files if f.endswith(".npz")]
     art["login_keys"] = len(fake.login_keys)
+    if getattr(fake, "login_fault_fired", False):
+        res["fault_fired_login"] = True
     art["wandb_finished"] = fake.finished
     res["artifacts"] = art
     return res
